@@ -65,7 +65,8 @@ Model-level references (`ModelImpl.new_ref / change_ref / del_ref`, model.py; PR
 * a reference member that is created where a model-level reference of its name is visible SHADOWS it:
   `on_create_ref` (space.py, own references, derived ones created by `SpaceManager.new_ref` /
   `change_ref`) and `UserSpaceImpl.on_inherit` (a reference derived through a change of bases; /repo
-  5b95fbf) call `clear_attr_referrers(global_refs[name])`: `shadowClears`.
+  5b95fbf) call `clear_attr_referrers(global_refs[name])`: `shadowClears`; so does the cells branch of
+  `on_inherit` for a DERIVED CELLS that hides a model-level reference (/repo cdc3def): `shadowedCells`.
 
 Not in the machine: object-valued references (the reference `S` of `S.x` itself), parametrised spaces
 (`clear_subs_rootitems`), attribute paths to CELLS of other spaces at source level, `_model.x`.
@@ -368,6 +369,13 @@ def shadowed (st st' : SM.St) (derivedOnly : Bool) : List String :=
     (st.mem .refs e.1 e.2).isNone && st.globals.contains e.2 &&
       (!derivedOnly || (match st'.mem .refs e.1 e.2 with | some m => m.derived | none => false)))).map (·.2)
 
+/-- the cells members of `st'` that `st` lacks although a model-level reference of their name exists: a
+cells DERIVED into a space hides the model-level reference that was seen through the space
+(`UserSpaceImpl.on_inherit`, cells branch; /repo cdc3def).  (A cells cannot be CREATED under the name of a
+model-level reference: `_can_add` refuses; the cells was there before the reference.) -/
+def shadowedCells (st st' : SM.St) : List String :=
+  ((cellMembers st').filter (fun e => (st.mem .cells e.1 e.2).isNone && st.globals.contains e.2)).map (·.2)
+
 /-- `if name in self.model.global_refs: clear_attr_referrers(global_refs[name])` of `on_create_ref`
 (every `space.x = v`: `new_ref` and `change_ref` both end in `on_create_ref` of the space itself, and of
 the sub spaces that get or re-get the reference) and of `UserSpaceImpl.on_inherit` (a reference derived
@@ -376,8 +384,8 @@ constructor of a new space are put into the container without it – nothing can
 space that did not exist) -/
 def shadowClears (t : Tabs) (st st' : SM.St) : SM.Op → List Clear
   | .setRef _ name _ => if st.globals.contains name then globalAttr t st name else []
-  | .newSpace _ _ _ _ => (shadowed st st' true).flatMap (globalAttr t st)
-  | _ => (shadowed st st' false).flatMap (globalAttr t st)
+  | .newSpace _ _ _ _ => (shadowed st st' true ++ shadowedCells st st').flatMap (globalAttr t st)
+  | _ => (shadowed st st' false ++ shadowedCells st st').flatMap (globalAttr t st)
 
 /-- the whole clearing of an accepted structural operation -/
 def clearingG (kw : List String) (t : Tabs) (st st' : SM.St) (o : SM.Op) : List Clear :=
@@ -527,7 +535,8 @@ def stepCovered (P : Params) (w : W) : Op → Bool
 `step` / `Op` is the machine the theorems of `Proofs/EditMachineRun.lean` speak about: in a state
 without model-level references `clearingG = clearing`.  `stepG` adds `model.x = v` / `del model.x`
 and the clearing of shadowed model-level references; it is what the driver layer `edit` runs and
-compares with modelx, evaluating `stepCoveredG` at every step. -/
+compares with modelx, evaluating `stepCoveredG` at every step.  Its theorems (coverage from `SM.Inv`,
+`stepG_cig`, `runG_cig`, `runG_sim`): `Proofs/EditMachineGlobals*.lean`, stated in `Props/C02.lean`. -/
 
 inductive OpG
   | op (o : Op)
@@ -572,10 +581,10 @@ def stepCoveredG (P : Params) (w : W) : OpG → Bool
   | .setGlobal x _ =>
     match w.sm.apply P.kw (.setGlobal x) with
     | none => true
-    | some _ => coveredGlobal (w.tabs.grow w.sm) w.sm x (globalClearing (w.tabs.grow w.sm) w.sm x)
+    | some st' => coveredGlobal (w.tabs.grow st') w.sm x (globalClearing (w.tabs.grow st') w.sm x)
   | .delGlobal x =>
     match w.sm.apply P.kw (.delGlobal x) with
     | none => true
-    | some _ => coveredGlobal (w.tabs.grow w.sm) w.sm x (globalClearing (w.tabs.grow w.sm) w.sm x)
+    | some st' => coveredGlobal (w.tabs.grow st') w.sm x (globalClearing (w.tabs.grow st') w.sm x)
 
 end MxModel.Edit
